@@ -162,6 +162,14 @@ func C16(c *core.Ctx) {
 				kj.Dir{K: "open", Z: lo + 2, A: "Assets:Temp"},
 				kj.Dir{K: "trx", Z: hi, Desc: "after re-open", Bk: []kj.Booking{{Cr: "Equity:Equity", Dr: "Assets:Temp", C: "CHF", Q: 5}}})
 		}
+		// the same booking twice on one day (two coffees): transactions that compare equal
+		if i%2 == 1 {
+			for _, d := range append([]kj.Dir(nil), j.Dirs...) {
+				if d.K == "trx" && !d.Acc.On && rng.Intn(2) == 0 {
+					j.Dirs = append(j.Dirs, d)
+				}
+			}
+		}
 		v := "CHF"
 		for _, d := range j.Dirs {
 			if d.K == "price" && (d.C == "USD" || d.T == "USD") && rng.Intn(2) == 0 {
